@@ -262,6 +262,17 @@ def check_site(d, M, mode="abs"):
                         nums = [m.split()[-1] for m in menu if m.split()]
                         if nums != [str(i) for i in range(1, M + 1)]:
                             out.append(("C15:serving-menu-wrong", "%s: menu %r" % (path, menu)))
+                        # every entry of the menu leads, by ordinary URL resolution, to this recipe's page for that count
+                        for sp in root.iter():
+                            if "rg-serving-count" not in sp.classes():
+                                continue
+                            for a in sp.iter():
+                                if a.tag != "a" or "href" not in a.attrs or not a.text().split():
+                                    continue
+                                cnt = a.text().split()[-1]
+                                if cnt.isdigit() and gen_site.resolve(path, a.attrs["href"]) != "/serves%s/%s%s.html" % (cnt, sub, stem):
+                                    out.append(("C15:serving-menu-wrong", "%s: the entry for %s leads to %r" % (path, cnt, gen_site.resolve(path, a.attrs["href"]))))
+                                    break
             for root_name in ["serves%d" % n for n in range(1, M + 1)] + ["categories"]:
                 path = "/%s/%sindex.html" % (root_name, sub)
                 if path not in got:
